@@ -3,7 +3,7 @@ from lib import hexs
 
 MODULE = "DtailModel.Props.C04"
 # scripts with real waits: a disagreement counts only if it reproduces when re-run alone (flake policy, DESIGN 2.3)
-TIMED_OPS = ("c04.tail",)
+TIMED_OPS = ("c04.tail", "c04.follow")
 # translated packages (tie G) this property's theorems rest on
 GEN_UNITS = ("Fs",)
 GROUPS = ["C04", "GEN"]
@@ -89,8 +89,21 @@ def impl_view(case, impl):
     return impl
 
 
+def _gen_follow(rng, n):
+    """the follow with its re-open loop (readCommand.read): the file's name is taken away until the reader lets go of the
+    file, then given back; complete lines before and after"""
+    for _ in range(n):
+        pre = rng.choice([b"", b"old 1\nold 2\n"])
+        before = b"".join(b"new %d\n" % i for i in range(1, rng.choice([2, 4, 9])))
+        after = b"".join(b"later %d\n" % i for i in range(1, rng.choice([2, 3, 6])))
+        k = rng.randrange(1, len(before))
+        yield f"c04.follow 1048576 {hexs(pre)} W{hexs(before[:k])},W{hexs(before[k:])},M,W{hexs(after)},P"
+
+
 def gen(rng, budget, tier):
     # tie G: the translated stats.go / transmittable and the real functions on the same scripts
     from props import gen_tie
     yield from gen_tie.gen_stats(rng, 150 if tier == "quick" else 5000)
     yield from _gen_hand(rng, budget, tier)
+    yield "c04.follow 1048576 - W6e657720310a6e657720320a,P,W6e657720330a"
+    yield from _gen_follow(rng, 2 if tier == "quick" else 32)
